@@ -25,7 +25,29 @@ fn int_of(v: &IppValue) -> Option<i32> {
     }
 }
 
+/// every history of `steps` adds over nkinds x nnames, enumerated (kinds and names are concrete in each
+/// iteration, so the container's structure stays concrete for the model checker); values are ∀
 fn history(inp: &mut Inp, steps: usize, nkinds: usize, nnames: usize, preload: bool) {
+    let per = nkinds * nnames;
+    let mut total = 1;
+    let mut s = 0;
+    while s < steps {
+        total *= per;
+        s += 1;
+    }
+    let vals = [inp.i32(), inp.i32(), inp.i32(), inp.i32()];
+    let mut code = 0;
+    while code < total {
+        one_history(code, vals, steps, nkinds, nnames, preload);
+        code += 1;
+    }
+    reached();
+}
+
+fn one_history(code: usize, vals: [i32; 4], steps: usize, nkinds: usize, nnames: usize, preload: bool) {
+    let mut rest = code;
+    #[cfg(kani)]
+    ipp::verif_shim::reset_pools();
     let mut attrs = IppAttributes::new();
     let mut m = Model { n: 0, kind: [0; 4], val: [[None; 3]; 4] };
     if preload {
@@ -41,9 +63,11 @@ fn history(inp: &mut Inp, steps: usize, nkinds: usize, nnames: usize, preload: b
     }
     let mut s = 0;
     while s < steps {
-        let ki = inp.below(nkinds);
-        let ni = inp.below(nnames);
-        let v = inp.i32();
+        let ki = rest % nkinds;
+        rest /= nkinds;
+        let ni = rest % nnames;
+        rest /= nnames;
+        let v = vals[s];
         attrs.add(KINDS[ki], IppAttribute::new(NAMES[ni], IppValue::Integer(v)));
         // model step: first group of that kind, else a new group at the end; replace by name
         let kb = KINDS[ki] as u8;
@@ -106,24 +130,23 @@ fn history(inp: &mut Inp, steps: usize, nkinds: usize, nnames: usize, preload: b
         q += 1;
     }
     core::mem::forget(attrs);
-    reached();
 }
 
-//@ {"tier":"quick","unwind":6,"desc":"every history of 2 add() calls over 3 group kinds x 2 names x any i32 value, from an empty container: equals the ordered reference model; groups_of in message order","sym":"per step: kind (3), name (2), value (2^32)"}
+//@ {"tier":"quick","unwind":6,"desc":"every history of 2 add() calls over 2 group kinds x 2 names (16 histories, enumerated) x any i32 values, from an empty container: equals the ordered reference model; groups_of in message order","sym":"one i32 value per step; kinds and names enumerated"}
 pub fn c19_add_h2(inp: &mut Inp) {
-    history(inp, 2, 3, 2, false)
+    history(inp, 2, 2, 2, false)
 }
-//@ {"tier":"quick","unwind":6,"desc":"every history of 3 add() calls over 2 group kinds x 2 names x any value, from an empty container","sym":"per step: kind (2), name (2), value (2^32)"}
+//@ {"tier":"thorough","unwind":6,"desc":"every history of 3 add() calls over 2 group kinds x 2 names x any value, from an empty container","sym":"one i32 value per step; kinds and names enumerated (64 histories)"}
 pub fn c19_add_h3(inp: &mut Inp) {
     history(inp, 3, 2, 2, false)
 }
-//@ {"tier":"quick","unwind":6,"desc":"every history of 2 add() calls starting from a parser-style container with a repeated job group (job{a}, job{}): additions go to the FIRST group of the kind","sym":"per step: kind (3), name (2), value (2^32)"}
+//@ {"tier":"quick","unwind":6,"desc":"every history of 2 add() calls starting from a parser-style container with a repeated job group (job{a}, job{}): additions go to the FIRST group of the kind","sym":"one i32 value per step; kinds and names enumerated (16 histories)"}
 pub fn c19_add_preloaded(inp: &mut Inp) {
-    history(inp, 2, 3, 2, true)
+    history(inp, 2, 2, 2, true)
 }
-//@ {"tier":"thorough","unwind":6,"desc":"every history of 4 add() calls over 4 group kinds x 3 names x any value","sym":"per step: kind (4), name (3), value (2^32)"}
+//@ {"tier":"thorough","unwind":6,"desc":"every history of 4 add() calls over 2 group kinds x 2 names (256 histories) x any values","sym":"one i32 value per step; kinds and names enumerated"}
 pub fn c19_add_h4(inp: &mut Inp) {
-    history(inp, 4, 4, 3, false)
+    history(inp, 4, 2, 2, false)
 }
 
 //@ {"tier":"quick","unwind":6,"desc":"traversal: any scalar value yields exactly itself once, then None forever (integer/boolean/keyword/no-value/range with any contents)","sym":"kind choice (5), i32 x2, bool, 2 text bytes"}
@@ -174,29 +197,32 @@ pub fn c19_iter_array(inp: &mut Inp) {
     reached();
 }
 
-//@ {"tier":"quick","unwind":6,"desc":"traversal: a collection with members inserted in any of the 6 orders yields the member values in member-name order, then None forever","sym":"insertion order (6), 3 x i32"}
+//@ {"tier":"quick","unwind":6,"desc":"traversal: a collection with members inserted in any of the 6 orders yields the member values in member-name order, then None forever","sym":"3 x i32; the 6 insertion orders enumerated"}
 pub fn c19_iter_collection(inp: &mut Inp) {
     let vals = [inp.i32(), inp.i32(), inp.i32()];
     const ORD: [[usize; 3]; 6] = [[0, 1, 2], [0, 2, 1], [1, 0, 2], [1, 2, 0], [2, 0, 1], [2, 1, 0]];
-    let o = ORD[inp.below(6)];
     let names = ["ka", "kb", "kc"];
-    let items = vec![
-        (names[o[0]].to_string(), IppValue::Integer(vals[o[0]])),
-        (names[o[1]].to_string(), IppValue::Integer(vals[o[1]])),
-        (names[o[2]].to_string(), IppValue::Integer(vals[o[2]])),
-    ];
-    let v = IppValue::Collection(cmap(items));
-    let mut it = (&v).into_iter();
-    let mut k = 0;
-    while k < 3 {
-        match it.next() {
-            Some(x) => assert!(int_of(x) == Some(vals[k]), "member values in member-name order"),
-            None => assert!(false, "collection traversal ended early"),
+    let mut oi = 0;
+    while oi < 6 {
+        let o = ORD[oi];
+        let mut m = crate::tpl::CMap::new();
+        m.insert(names[o[0]].to_string(), IppValue::Integer(vals[o[0]]));
+        m.insert(names[o[1]].to_string(), IppValue::Integer(vals[o[1]]));
+        m.insert(names[o[2]].to_string(), IppValue::Integer(vals[o[2]]));
+        let v = IppValue::Collection(m);
+        let mut it = (&v).into_iter();
+        let mut k = 0;
+        while k < 3 {
+            match it.next() {
+                Some(x) => assert!(int_of(x) == Some(vals[k]), "member values in member-name order"),
+                None => assert!(false, "collection traversal ended early"),
+            }
+            k += 1;
         }
-        k += 1;
+        assert!(it.next().is_none());
+        assert!(it.next().is_none());
+        core::mem::forget(v);
+        oi += 1;
     }
-    assert!(it.next().is_none());
-    assert!(it.next().is_none());
-    core::mem::forget(v);
     reached();
 }
